@@ -255,12 +255,14 @@ impl MultiState {
             .map(|(d, width)| d.visual_line_count(.., width))
             .unwrap_or_default();
 
-        // Track the total number of zombie lines on the screen
-        self.zombie_lines_count = self.zombie_lines_count.saturating_add(line_count);
-
         // Make `DrawTarget` forget about the zombie lines so that they aren't cleared on next draw.
-        self.draw_target
+        // The lines may not be on the screen at the moment (after `clear()`).
+        let kept = self
+            .draw_target
             .adjust_last_line_count(LineAdjust::Keep(line_count));
+
+        // Track the total number of zombie lines on the screen
+        self.zombie_lines_count = self.zombie_lines_count.saturating_add(kept);
 
         self.remove_idx(index);
     }
